@@ -55,6 +55,21 @@ CHECKS = {
         technique='runtime monitor on an exhaustively enumerated space: every size sequence of length <= 5 over sizes 0-6 x targets 1-7 x 1-3 columns x container kinds is re-batched by the real rebatched_args (and through apply/select/batch pipelines) and checked for row conservation, order, alignment, batch sizes and tail-only padding using unique cell ids',
         text='1.86M cases per quick run (exhaustive small space), 21M thorough incl. random long streams.',
         note='The stream is passed as an iterator; columns of a batch have equal length.'),
+    'C01': dict(
+        category='exploration', design_ref='DESIGN.md §4 C01',
+        technique='runtime metamorphic monitor: every shipped mergeable metric (80 adapter configurations, object and AggregateFn APIs, auto-discovered inventory) is fed the same dataset as one batch into one accumulator and as arbitrary shard/batch compositions merged together; results compared numerically / by concatenation order / reservoir invariants; per-row outputs compared with batch-of-one; plus the merge-free one-batch evaluation as a second reference',
+        text='32k compositions per quick run, 786k thorough, over datasets with NaNs, ragged rankings, empty shards.',
+        note='Generator restrictions in the evidence assumptions. Known findings: TopKRetrieval per-batch k truncation.'),
+    'C11': dict(
+        category='exploration', design_ref='DESIGN.md §4 C11',
+        technique='runtime metamorphic monitor on merge: all bracketings (and permutations for commutative metrics) of 2-5 states incl. fresh ones must agree; operands are snapshotted and re-read after the merge, after updating the receiver and after updating the operand (aliasing detection with deep-copied twins); result() interleaved against a twin that never read it; returned arrays scribbled for histogram-like metrics',
+        text='4k state sets per quick run (80k grouping checks), 210k thorough.',
+        note='As C01.'),
+    'C14': dict(
+        category='exploration', design_ref='DESIGN.md §3.4, §4 C14', engine='E4-simulated-courier',
+        technique='runtime differential monitor over the simulated Courier transport: generated lazy expressions (values and raising callables) are evaluated locally and through the real CourierServer/CourierClient (sync and async); remote-object chains are mirrored on a local twin; remote iterators/queues are drained and compared with the generator; concurrent client threads; calls on a server with shutdown requested',
+        text='4.8k cases per quick run (23k transport calls), 190k thorough, on real threads.',
+        note='Trusted: the transport stand-in (validated by running the 186 upstream courier tests against it in the thorough tier of C16).'),
 }
 
 NOT_APPLICABLE = {}
@@ -89,6 +104,7 @@ def main():
       },
       'engines': [
           {'name': 'E2-deterministic-scheduler', 'path': 'vlib/sched/', 'serves_properties': ['C03', 'C04', 'C05', 'C13', 'C15', 'C20'], 'kind_free_text': 'threading/futures shims + seeded scheduler (random walk, PCT) + sys.monitoring LINE yield injection; exact deadlock witnesses; replayable choice traces'},
+          {'name': 'E4-simulated-courier', 'path': 'vlib/fakecourier/', 'serves_properties': ['C06', 'C14', 'C15', 'C16', 'C20'], 'kind_free_text': 'in-process stand-in for the Courier RPC surface the library uses, with call log, fault plans and time dilation'},
           {'name': 'E1-differential', 'path': 'vlib/runner.py', 'kind_free_text': 'seeded/exhaustive case generation, real API vs independent oracle or metamorphic twin, subprocess fan-out'},
       ],
       'checks': checks,
